@@ -825,7 +825,9 @@ func (db *DBStore) SupplementTipTransaction(txn types.Transaction) (ts consensus
 // SupplementTipBlock implements Store.
 func (db *DBStore) SupplementTipBlock(b types.Block) (bs consensus.V1BlockSupplement) {
 	height := db.getHeight()
-	if height >= db.n.HardforkV2.RequireHeight {
+	// consensus requires an empty supplement for every block whose own height
+	// (the child of the tip) is at or above the require height
+	if height+1 >= db.n.HardforkV2.RequireHeight {
 		return consensus.V1BlockSupplement{Transactions: make([]consensus.V1TransactionSupplement, len(b.Transactions))}
 	}
 
